@@ -46,19 +46,30 @@ func cmdHarness(args []string) {
 	workers := fs.Int("j", 16, "workers")
 	replay := fs.Bool("replay", false, "replay violations natively")
 	dump := fs.String("dump", "", "dump verdict queries to dir")
+	conc := fs.Bool("conc", false, "concretize symbolic field stores when the path condition forces a single value")
 	solver := fs.String("solver", "", "main solver (z3, z3-new)")
 	var params multiFlag
 	fs.Var(&params, "p", "param name=value")
+	var stubs multiFlag
+	fs.Var(&stubs, "stub", "function=constant")
 	fs.Parse(args)
 	if fs.NArg() < 2 {
 		fmt.Println("usage: gosmt harness [flags] <pkgdir> <func>")
 		os.Exit(2)
 	}
-	spec := HarnessSpec{Pkg: fs.Arg(0), Func: fs.Arg(1), Unwind: *unwind, Params: map[string]int{}, Solver: *solver}
+	spec := HarnessSpec{Pkg: fs.Arg(0), Func: fs.Arg(1), Unwind: *unwind, Params: map[string]int{}, Solver: *solver, ConcStores: *conc}
 	for _, p := range params {
 		kv := strings.SplitN(p, "=", 2)
 		v, _ := strconv.Atoi(kv[1])
 		spec.Params[kv[0]] = v
+	}
+	for _, p := range stubs {
+		kv := strings.SplitN(p, "=", 2)
+		v, _ := strconv.ParseUint(kv[1], 0, 64)
+		if spec.StubConst == nil {
+			spec.StubConst = map[string]uint64{}
+		}
+		spec.StubConst[kv[0]] = v
 	}
 	scratch, _ := os.MkdirTemp("", "gosmt-*")
 	defer os.RemoveAll(scratch)
